@@ -253,8 +253,7 @@ theorem rtNext_ok (bs : Bytes) : ∀ (fuel : Nat) (it : RtIt), RtInv bs it → r
         · simp [hb]
           exact trip _ (hinv.step h31 rfl rfl rfl rfl)
       by_cases ha : rtAlign it.argIndex = 0
-      · simp [hns, ha]
-        exact trip _ (hinv.step h31 rfl rfl rfl rfl)
+      · simp [hns, ha]; trivial
       simp [hns, ha]
       generalize (if it.arg % rtAlign it.argIndex = 0 then it.arg
                   else it.arg + (rtAlign it.argIndex - it.arg % rtAlign it.argIndex)) = a
